@@ -644,7 +644,10 @@ def exhaustive(P, R):
             for bid in f.reachable_blocks():
                 for e in f.out[bid]:
                     r = e.rel()
-                    if r and isinstance(r[0], dict) and r[0].get('k') == 'mem' and r[0].get('field') == 'type' and r[1] == '==' and (r[2] or {}).get('k') == 'enum' and r[2].get('enum') == 'conf_node_type':
+                    l0 = r[0] if r else None
+                    if is_var(l0) and f.single_def(l0['name']):
+                        l0 = f.single_def(l0['name'])[1]      # a local copy of the kind
+                    if r and isinstance(l0, dict) and l0.get('k') == 'mem' and l0.get('field') == 'type' and r[1] == '==' and (r[2] or {}).get('k') == 'enum' and r[2].get('enum') == 'conf_node_type':
                         vals.add(r[2]['v'])
                         first = first or bid
             if vals:
